@@ -53,6 +53,13 @@ RH_N = z3.Function("read_html_count", BioS, z3.IntSort())
 H2T = z3.Function("html_to_text", S, S)                 # msg._html_to_text at its call sites (deterministic: C16 assumes the same)
 LLH = z3.Function("looks_like_html", S, z3.BoolSort())  # msg._looks_like_html at its call sites
 MsgS = ext_sort("MsgObj")
+# round 6: the MIME view of an archive (email.message_from_bytes + _find_html_part), ASSUMED as uninterpreted functions
+MimeS = ext_sort("MimeMsg")
+MIMEMSG = z3.Function("mime_message_of", BytesS, MimeS)               # email.message_from_bytes(content)
+MIME_PARSES = z3.Function("mime_parser_accepts", BytesS, z3.BoolSort())  # ... returns normally
+MIME_HAS = z3.Function("mime_has_html_part", MimeS, z3.BoolSort())       # _find_html_part(msg) returns a part (not None, no exception)
+MIMEPART = z3.Function("mime_html_part", MimeS, BytesS)                  # that part, decoded
+NONEMPTY = z3.Function("bytes_nonempty", BytesS, z3.BoolSort())          # truth value of a byte string
 BODY = z3.Function("msg_body", MsgS, S)
 BODY_NONE = z3.Function("msg_body_is_none", MsgS, z3.BoolSort())
 
@@ -253,6 +260,8 @@ def install(reg):
     reg.ext_models["str.strip"] = lambda ex, st, args, kwargs, node: [(st, VStr(STRIP(args[0].t)))] if len(args) == 1 else \
         [(st, VStr(z3.String(fresh_name("strip"))))]
     reg.ext_models["str.replace"] = lambda ex, st, args, kwargs, node: [(st, VStr(REPLACE(args[0].t, args[1].t, args[2].t)))]
+    for nm in ("email.message_from_bytes", "message_from_bytes"):
+        reg.ext_models[nm] = m_message_from_bytes
     reg.ext_models[("new", "msg_parser.MsOxMessage")] = new_msg
     reg.ext_models[("new", "MsOxMessage")] = new_msg
     reg.attr_models[("MsgObj", "body")] = None       # placeholder: forking attribute, see C17Executor.get_attr
@@ -260,6 +269,19 @@ def install(reg):
     reg.ext_models[("new", "EmailContent")] = new_record("EmailContent")
     reg.method_models[("EpubCtx", "read_text")] = m_read_text
     reg.method_models[("EpubCtx", "exists")] = lambda ex, st, o, a, k, n: [(st, VBool(z3.Bool(fresh_name("exists"))))]
+
+
+def m_message_from_bytes(ex, st, args, kwargs, node):
+    """email.message_from_bytes(b): the MIME tree of b (ASSUMED: a function of the bytes); raises exactly when not MIME_PARSES(b)."""
+    if len(args) == 1 and not kwargs and isinstance(args[0], VExt) and args[0].sort == "Bytes":
+        b = args[0].t
+        bad = st.fork().assume(z3.Not(MIME_PARSES(b)))
+        if ex.feasible(bad.pc):
+            ex.exc_any(bad, f"{ex.loc(node)} message_from_bytes")
+        st.assume(MIME_PARSES(b))
+        return [(st, VExt("MimeMsg", MIMEMSG(b)))]
+    ex.exc_any(st.fork(), f"{ex.loc(node)} message_from_bytes")
+    return [(st, VExt("MimeMsg"))]
 
 
 def new_msg(ex, st, args, kwargs, node):
@@ -421,6 +443,38 @@ def contracts():
         st.ghost["mhtml_part_arg"] = st.ghost.get("mhtml_part_arg", ()) + (a,)
         add_source(st, t)
         return VExt("Bytes", t)
+    # round 6: _extract_from_mhtml itself under contract -- WHICH of its strategies decides.  The MIME parser knows the archive's
+    # real boundary; the header scan / raw-HTML search only guess where the part ends (any line of boundary characters after
+    # `--` ends it: a ruler of dashes in a comment, `--x:` in a style sheet).  So whenever the MIME parser finds a non-empty
+    # HTML part in the whole archive, that part is the result -- whatever the size of the archive, whatever else is tried.
+    def mime_find(c):
+        m = c.args.get("msg")
+        if isinstance(m, VExt) and m.sort == "MimeMsg":
+            return [(z3.Not(MIME_HAS(m.t)), NONE), (MIME_HAS(m.t), VExt("Bytes", MIMEPART(m.t)))]
+        return [(z3.Bool(fresh_name("no_part")), NONE), (z3.BoolVal(True), VExt("Bytes"))]
+
+    def mime_find_raises(c):
+        m = c.args.get("msg")
+        return z3.Not(MIME_HAS(m.t)) if isinstance(m, VExt) and m.sort == "MimeMsg" else z3.BoolVal(True)
+    out.append(FnContract(
+        target=f"{MHTML}::_find_html_part", params=[("msg", P_UNK)], assumed=True, returns=mime_find,
+        raises=[Raises("Exception", sub=True, when=mime_find_raises, label="no part found that way")],
+        note="ASSUMED (MIME decoding is not C17's subject): the decoded text/html part of the MIME tree, or None",
+    ))
+
+    def xm_mime_first(c):
+        a = c.args["content"]
+        m = MIMEMSG(a.t)
+        found = z3.And(MIME_PARSES(a.t), MIME_HAS(m), NONEMPTY(MIMEPART(m)))
+        r = c.result
+        if isinstance(r, VExt) and r.sort == "Bytes":
+            return z3.Implies(found, r.t == MIMEPART(m))
+        return z3.Not(found)
+    out.append(FnContract(
+        target=f"{MHTML}::_extract_from_mhtml", params=[("content", Maker(lambda ex, st, name: VExt("Bytes", z3.Const(name, BytesS)), desc="bytes"))],
+        ensures=[("the-html-part-the-MIME-parser-finds-in-the-whole-archive-is-the-result-(guessing-scans-only-when-it-finds-none)", xm_mime_first)],
+        raises=[Raises("Exception", sub=True, label="failure surface is C01's obligation")],
+    ))
     out.append(FnContract(
         target=f"{MHTML}::_extract_from_mhtml", params=[("content", P_UNK)], assumed=True,
         returns=lambda c: [(z3.Bool(fresh_name("no_html_part")), NONE), (z3.BoolVal(True), mh_part(c.ex, c.st, c))],
@@ -518,4 +572,5 @@ def contracts():
     return out
 
 
-TARGETS = (f"{MSG}::read_msg_format_mail", f"{MSG}::_html_to_text", f"{HTML}::read_html", f"{MHTML}::read_mhtml", f"{EPUB}::_extract_chapter")
+TARGETS = (f"{MSG}::read_msg_format_mail", f"{MSG}::_html_to_text", f"{HTML}::read_html", f"{MHTML}::read_mhtml", f"{EPUB}::_extract_chapter",
+           f"{MHTML}::_extract_from_mhtml")
